@@ -45,6 +45,17 @@ def only_jobs(jobs):
 
 
 def build(ctx, res):
+    """the two back ends are built independently: a lost anchor (ExtractError) in one job makes that job undecided and keeps the other's verdict"""
+    jobs = []
+    for mk in (verus_job, kani_job):
+        try:
+            jobs.append(mk(ctx, res))
+        except ExtractError as e:
+            res.undecided.append("extraction (%s): %s" % (mk.__name__, e))
+    return only_jobs(jobs)
+
+
+def verus_job(ctx, res):
     h, v = ctx.src(H), ctx.src(V)
     vf = VerusFile()
     items = []
@@ -198,8 +209,7 @@ def build(ctx, res):
     res.samples.append({"obligation": "verus:hostcopy:HostContext::svc_write_output", "contract": "see contract_clauses"})
     expect = ["words_for", "HostContext::add_port_role", "HostContext::set_input", "HostContext::set_input_masked", "HostContext::svc_port_words_len",
               "HostContext::svc_write_output", "value::words_for", "value::mask_top_word", "lemma_mask_low", "lemma_bit_zero", "lemma_keep_top"]
-    jobs = [VerusJob("hostcopy", text, vf, expect, canaries=CANARIES, items=items, trusted=TRUSTED, rlimit=60), kani_job(ctx, res)]
-    return only_jobs(jobs)
+    return VerusJob("hostcopy", text, vf, expect, canaries=CANARIES, items=items, trusted=TRUSTED, rlimit=60)
 
 
 # E1: the `use` lines of value.rs (`use crate::{Result, bail, sys}; use smallvec::SmallVec;`) are replaced by this prelude: the real smallvec
